@@ -1198,9 +1198,11 @@ PROPS = {
                             "constant factors: 3/2 for packed tables, 4 for Vec/HashMap-backed structures, + 4 KiB"]},
     "C07": {"run": run_C07, "level": "exploration",
             "rule": "every point of the TLA+ parameter plane Gen_Sizing (n in {1,2,3,7,50,1000[,20000]} x p = a/c incl. p > 1/2, 1 - 2^-j, 2^-j) constructed with with_properties / with_properties_4 / _8, "
-                    "n distinct inserts, queries, len(); judged by P_Sizing: k >= 1, m >= 1, no panic, no Full, no false negative, 2b/2^l <= p, capacity >= n; the quotient-filter rate clause is the exact-set invariant of C13 (re-run here); "
+                    "n distinct inserts, queries, len(); judged by P_Sizing: k >= 1, m >= 1, no panic, no Full, no false negative, 2b/2^l <= p, capacity >= n, and gross measured clauses with a 6-sigma margin on 20 000 probes "
+                    "(Bloom false positives <= 1.3 p for n >= 1000, cuckoo <= p, Bloom len() within 10% for n >= 1000 at <= 50% occupancy); the quotient-filter rate clause is the exact-set invariant of C13 (re-run here); "
                     "every point is a distinct configuration",
-            "assumptions": ["NOT decided (statistical / transcendental): Bloom false-positive rate <= 1.3 p and the accuracy of BloomFilter::len(); measured false-positive counts are recorded in the evidence samples only"]},
+            "assumptions": ["the Bloom rate and len() clauses are statistical: they are only checked grossly (single hasher seed per VERIF_SEED, 20 000 probes, 6-sigma margin, n >= 1000), so a sizing error below roughly 1.5x is not detected",
+                            "constructor argument contracts (Gen_Constructors) are run here as extra coverage and never affect the verdict"]},
     "C12": {"run": lambda ctx: (run_ck(ctx), run_C13(ctx)), "level": "model_checking", "rule": CK_RULE + "; quotient filter as C13", "assumptions": CK_ASSUME},
     "C13": {"run": run_C13, "level": "model_checking",
             "rule": "E1: every reachable state of the quotient-filter M-spec for the listed (q,r); E2: every emitted transition executed "
